@@ -61,7 +61,7 @@ def canon(hist):
             stack.pop()
         elif ev[0] == 'exc':
             del stack[-ev[1]:]
-        elif ev[0] == 'mkinv':
+        elif ev[0] in ('mkinv', 'mkinvc'):
             inv.append(tuple(stack))
         elif ev[0] == 'applyj':
             used.add(model_fp(inv[ev[1]]))
@@ -143,6 +143,11 @@ def plan(tier, seed):
                 for order in ([0, 1], [1, 0], [0, 1, 0]):
                     for kind in ('applyj', 'apply'):
                         pair_hist.append(h + [[kind if k % 2 == 0 or kind == 'applyj' else 'applyj', i] for k, i in enumerate(order)])
+    for s1 in opts:
+        for s2 in opts:
+            h = ([['push', s1]] if s1 else []) + [['mkinvc']] + ([['pop']] if s1 else [])
+            h += ([['push', s2]] if s2 else []) + [['redinv', 0], ['readinv', 0]] + ([['pop']] if s2 else []) + [['readinv', 0], ['applyc', 0]]
+            pair_hist.append(h)
     seen_h = {repr(c) for c in cases}
     pair_hist = [h for h in pair_hist if repr(h) not in seen_h]
     phases.append({'name': 'histories_pairs', 'target': TARGET, 'cases': pair_hist, 'x64': False, 'chunk': 6})
@@ -224,7 +229,9 @@ def _setup():
         pass
 
     S2 = SymDense(jnp.array([[2.0, 1.0], [1.0, 3.0]], f32), jax.ShapeDtypeStruct((2,), f32), 'ij,j->i')
-    _W.update(S2=S2)
+    from furax._base.core import AdditionOperator
+
+    _W.update(S2=S2, SC=AdditionOperator([S, S]))
     _W.update(jax=jax, jnp=jnp, Config=Config, calls=calls, cbA=cbA, cbB=cbB, CG1=CG1, DEFAULT=DEFAULT, SET=SET, S=S, fp=fp)
     return _W
 
@@ -302,6 +309,35 @@ def interpret(hist, problems, obs=None, ev=None, api=None, init_stack=(), spawn_
                 expect('captured at creation', got, model_fp(stack))
                 if obs is not None:
                     obs.append(('mkinv', got))
+            elif e[0] == 'mkinvc':   # inverse of a composite (a sum: its reduce() always returns a new object)
+                inv = W['SC'].I
+                invs.append((inv, tuple(stack)))
+                expect('captured at creation (composite operand)', fp(inv.config), model_fp(stack))
+            elif e[0] == 'redinv':   # reducing an expression that contains the inverse must not re-capture the configuration
+                inv, st = invs[e[1]]
+                from furax._base.core import CompositionOperator, InverseOperator
+
+                r = inv.reduce()
+                r2 = CompositionOperator([W['S'], inv]).reduce()
+                for cand in [r] + (list(r2.operands) if isinstance(r2, CompositionOperator) else [r2]):
+                    if isinstance(cand, InverseOperator):
+                        expect('configuration of the inverse after reduce()', fp(cand.config), model_fp(st))
+                if isinstance(r, InverseOperator):
+                    invs[e[1]] = (r, st)
+            elif e[0] == 'applyc':
+                inv, st = invs[e[1]]
+                want = model_fp(st)
+                raised = False
+                W['calls'].clear()
+                try:
+                    with quiet():
+                        inv.mv(jnp.array([1.0, 0.0], jnp.float32))
+                        jax.effects_barrier()
+                except Exception:  # noqa: BLE001
+                    raised = True
+                expect('apply (composite operand) raises iff captured throw and 1-step solver', raised, want[1] and want[0] == 'CG1')
+                if not raised and want[2] in ('A', 'B'):
+                    expect('callback of the captured config fired (composite operand)', W['calls'][-1][0] if W['calls'] else None, want[2])
             elif e[0] == 'readinv':
                 inv, st = invs[e[1]]
                 got = fp(inv.config)
